@@ -239,27 +239,42 @@ def pool_history_task(item):
     L = float(g.gamma_length)
     m = build(cfg, h)
     elems = list(m.leaf_elements)
-    est = ErrorEstimator(m, N_poly=5)
     ctl = vpool.install()
     fam = [OS.BYNAME['t'], OS.BYNAME['exp(X1)'], OS.family_for(L)[-1], OS.BYNAME['sin(2*X2)*t']]
     out = {'n': 0, 'viols': []}
-    # one window around the whole history: pools that the code keeps alive between calls stay alive (a correct implementation
-    # may do that); they are reaped only at the end
-    with ctl.window():
-        for cpu in (1, 3):
+    # one window around each history: pools that the code keeps alive between calls stay alive (a correct implementation may do
+    # that); they are reaped only at the end of the history.  Histories: every ordered pair of calls (fn1, r1) -> (fn2, r2) with
+    # different residuals on a fresh estimator, plus one long alternating history.
+    fns = ('estimate_weighted_l2', 'estimate_sobolev')
+    serial = {}
+
+    def want(fn, res):
+        if (fn, res.name) not in serial:
+            serial[(fn, res.name)] = np.asarray(getattr(ErrorEstimator(m, N_poly=5), fn)(elems, res.fun, use_mp=False))
+        return serial[(fn, res.name)]
+
+    def run_history(calls, cpu):
+        est = ErrorEstimator(m, N_poly=5)
+        with ctl.window():
             ctl.configure(cpu=cpu, assign=None)
-            for res in fam:
-                for fn in ('estimate_weighted_l2', 'estimate_sobolev'):
-                    out['n'] += 1
-                    try:
-                        got = getattr(est, fn)(elems, res.fun, use_mp=True)
-                        want = getattr(ErrorEstimator(m, N_poly=5), fn)(elems, res.fun, use_mp=False)
-                        bad = not np.array_equal(np.asarray(got), np.asarray(want))
-                        detail = 'pool result differs from the serial evaluation of the same residual'
-                    except Exception as ex:
-                        bad, detail = True, 'raised {!r}'.format(ex)
-                    if bad and len(out['viols']) < 3:
-                        out['viols'].append(('pool-call-history', {'cfg': cfgname, 'history': h, 'fn': fn, 'residual': res.name, 'cpu': cpu, 'detail': detail}))
+            for k, (fn, res) in enumerate(calls):
+                out['n'] += 1
+                try:
+                    got = np.asarray(getattr(est, fn)(elems, res.fun, use_mp=True))
+                    bad = None if np.array_equal(got, want(fn, res)) else 'pool result differs from the serial evaluation of the same residual'
+                except Exception as ex:
+                    bad = 'raised {!r}'.format(ex)
+                if bad and len(out['viols']) < 3:
+                    out['viols'].append(('pool-call-history', {'cfg': cfgname, 'history': h, 'fn': fn, 'residual': res.name, 'cpu': cpu,
+                                                               'calls': [(f, r.name) for f, r in calls[:k + 1]], 'detail': bad}))
+                    return
+
+    r1, r2 = fam[1], fam[2]
+    for cpu in (1, 3):
+        for f1 in fns:
+            for f2 in fns:
+                run_history([(f1, r1), (f2, r2)], cpu)
+        run_history([(fn, res) for res in fam for fn in fns] + [(fn, res) for res in reversed(fam) for fn in reversed(fns)], cpu)
     return out
 
 
